@@ -100,8 +100,17 @@ func (bpi *BucketPolicyItem) Validate(bucket string, iam IAMService) error {
 	if err := bpi.Effect.Validate(); err != nil {
 		return err
 	}
+	if len(bpi.Principals) == 0 {
+		return policyErrInvalidPrincipal
+	}
 	if err := bpi.Principals.Validate(iam); err != nil {
 		return err
+	}
+	if len(bpi.Actions) == 0 {
+		return policyErrInvalidAction
+	}
+	if len(bpi.Resources) == 0 {
+		return policyErrInvalidResource
 	}
 	if err := bpi.Resources.Validate(bucket); err != nil {
 		return err
@@ -113,7 +122,9 @@ func (bpi *BucketPolicyItem) Validate(bucket string, iam IAMService) error {
 	for action := range bpi.Actions {
 		isObjectAction := action.IsObjectAction()
 		if isObjectAction == nil {
-			break
+			// a wildcard action fits both kinds, keep checking the
+			// remaining actions
+			continue
 		}
 		if *isObjectAction && !containsObjectAction {
 			return policyErrResourceMismatch
